@@ -166,6 +166,10 @@ class ArithHooks(Hooks):
             it.fault('assign')
         if ev.get('t', {}).get('after_assign'):
             it.probe('op_repeated_after_assignment')
+        if ev.get('t', {}).get('after_result_write'):
+            it.probe('op_repeated_after_result_write')
+        if ev.get('t', {}).get('history_operand'):
+            it.probe('operand_with_history')
         if ev.get('id') and any(self.gen.get('@' + r, 0) for r in it.event_refs(ev)):
             self.touched.add(ev['id'])      # an operand's content was re-assigned by its owner before this call
         if opname is None:
@@ -338,7 +342,7 @@ class SpectrumArithScenario(Scenario):
                    'scipy.interpolate.interp1d is the trusted interpolation reference; two-element fill values are not generated for binary '
                    'operators (the statement speaks of "the fill value")']
     must_hit = ['pair:nm-nm', 'pair:nm-um', 'pair:angstrom-um', 'pair:m-nm', 'disjoint_ranges', 'sampling:left', 'sampling:right', 'sampling:float',
-                'op_repeated_after_to', 'commuted_pair', 'scalar_op', 'op_repeated_after_assignment', 'identity_scalar', 'ndarray_times_spectrum', 'blackbody_operand']
+                'op_repeated_after_to', 'commuted_pair', 'scalar_op', 'op_repeated_after_assignment', 'identity_scalar', 'ndarray_times_spectrum', 'blackbody_operand', 'op_repeated_after_result_write', 'operand_with_history']
     probe_names = must_hit + ['coldwarm_audit', 'ambiguous_grid', 'pair:um-um', 'pair:angstrom-nm', 'pair:m-um', 'pair:angstrom-m']
 
     # ---------------------------------------------------------------- generation
@@ -435,9 +439,45 @@ class SpectrumArithScenario(Scenario):
         for _ in range(nsteps):
             r = rng.random()
             a, b = rng.sample(pool, 2) if len(pool) >= 2 and rng.random() < 0.85 else (rng.choice(pool), rng.choice(pool))
+            if r < 0.06:
+                # an operand with a history: a private copy of a pool spectrum, cropped or trimmed by its owner, then used on either
+                # side (the oracle takes both operands from their live public state, so a fresh spectrum in that state is the reference)
+                s0 = rng.choice([x for x in pool if x['n'] >= 5] or pool)
+                cid = nid('cp')
+                prog.append({'c': c, 'fn': 'Spectrum.copy', 'a': ['@' + s0['id']], 'id': cid})
+                f_ = factor('nm', s0['unit'])
+                wn = s0['wave_nm']
+                i0 = rng.randint(0, max(0, len(wn) - 4))
+                j0 = rng.randint(min(len(wn) - 1, i0 + 2), len(wn) - 1)
+                if rng.random() < 0.7:
+                    # (bounds taken from the copy's live grid: the owner of the shared original may have changed its unit meanwhile)
+                    prog.append({'c': c, 'fn': 'h.crop_idx', 'a': ['@' + cid, i0, j0], 'id': nid('ed'), 'inplace': ['@' + cid]})
+                else:
+                    prog.append({'c': c, 'fn': 'Spectrum.trim', 'a': ['@' + cid, 1e-9], 'id': nid('ed'), 'inplace': ['@' + cid]})
+                hist = {'id': cid, 'n': 3, 'unit': s0['unit'], 'vunit': s0.get('vunit'), 'wave_nm': wn[i0:j0 + 1]}
+                # (not the spectrum it was copied from: copy - original is identically zero, and a relative comparison of two
+                #  zero spectra computed in different units is a comparison of rounding noise)
+                other = rng.choice([x for x in pool if x['id'] != s0['id']] or pool)
+                if other['id'] == s0['id']:
+                    continue
+                for x, y in ((hist, other), (other, hist)):
+                    e = binop_event(x, y, samp=rng.choice(['min', 'min', 'left', 'right']))
+                    e.setdefault('t', {})['history_operand'] = True
+                    e.get('k', {}).pop('method', None)
+                    mine.append(e['id'])
+                continue
             if r < 0.38:
                 e = binop_event(a, b)
                 mine.append(e['id'])
+                if rng.random() < 0.12:
+                    # the caller writes in place into the arrays its result hands out, then performs the same operation again
+                    prog.append({'env': 'perturb_attr', 'c': c, 'target': '@' + e['id'], 'attr': rng.choice(['wave', 'wave', 'value']),
+                                 'how': 'scale', 'by': rng.choice([1.05, 0.5, 1e-3]), 'unshared': True})
+                    d = copy.deepcopy(e)
+                    d['id'] = nid('again')
+                    d.setdefault('t', {})['after_result_write'] = True
+                    prog.append(d)
+                    mine.append(d['id'])
                 if rng.random() < 0.3 and op_of(e['fn']) in ('add', 'multiply'):
                     # the commuted twin, left/right swapped
                     k2 = dict(e.get('k', {}))
@@ -491,7 +531,7 @@ class SpectrumArithScenario(Scenario):
                 prog.append(e)
                 s['unit'] = unit
                 # and repeat an earlier operation on that spectrum right away (F6 across a representation change)
-                earlier = [x for x in prog if op_of(x['fn']) and ('@' + s['id']) in x['a'] and x.get('t', {}).get('expect') == 'ok'
+                earlier = [x for x in prog if 'fn' in x and op_of(x['fn']) and ('@' + s['id']) in x['a'] and x.get('t', {}).get('expect') == 'ok'
                            and all(isinstance(y, str) for y in x['a']) and not isinstance(x.get('k', {}).get('sampling'), float)]
                 if earlier and rng.random() < 0.8:
                     d = copy.deepcopy(rng.choice(earlier))
@@ -502,7 +542,7 @@ class SpectrumArithScenario(Scenario):
                 s = rng.choice(pool)
                 newv = [round(rng.uniform(0.2, 2.0), 3) for _ in range(s['n'])]
                 prog.append({'c': c, 'fn': 'setattr', 'a': ['@' + s['id'], 'value', newv], 'id': nid('set'), 'inplace': ['@' + s['id']], 't': {'assign': True}})
-                earlier = [x for x in prog if op_of(x['fn']) and ('@' + s['id']) in x['a'] and x.get('t', {}).get('expect') == 'ok'
+                earlier = [x for x in prog if 'fn' in x and op_of(x['fn']) and ('@' + s['id']) in x['a'] and x.get('t', {}).get('expect') == 'ok'
                            and all(isinstance(y, str) for y in x['a']) and not isinstance(x.get('k', {}).get('sampling'), float)]
                 if earlier:
                     d = copy.deepcopy(rng.choice(earlier))
@@ -594,6 +634,15 @@ class SpectrumArithScenario(Scenario):
             events.append({'c': 0, 'fn': 'setattr', 'a': ['@S1', 'value', [0.9, 0.1, 0.5, 0.7, 0.2, 0.6]], 'id': 'set1', 'inplace': ['@S1'], 't': {'assign': True}})
             E('s*', ['@S0', '@S1'], t={'expect': 'ok', 'after_assign': True})
             E('s+', ['@S0', [1.0, 2.0]], t={'expect': 'refuse', 'why': 'vector-length'})
+            # the caller writes in place into the arrays a result hands out, then performs the operation again
+            E('Spectrum.add', ['@S0', '@S1'])
+            events.append({'env': 'perturb_attr', 'c': 0, 'target': '@p%d' % n[0], 'attr': 'wave', 'how': 'scale', 'by': 1.05, 'unshared': True})
+            E('Spectrum.add', ['@S0', '@S1'], t={'expect': 'ok', 'after_result_write': True})
+            # an operand with a history: private copy, cropped by its owner, used on either side
+            events.append({'c': 0, 'fn': 'Spectrum.copy', 'a': ['@S0'], 'id': 'cp0'})
+            events.append({'c': 0, 'fn': 'Spectrum.crop', 'a': ['@cp0', wa[2] * (1 - 1e-9), wa[5] * (1 + 1e-9)], 'id': 'cp0e', 'inplace': ['@cp0']})
+            E('Spectrum.multiply', ['@cp0', '@S1'], {'sampling': 'left'}, t={'expect': 'ok', 'history_operand': True})
+            E('Spectrum.add', ['@S1', '@cp0'], t={'expect': 'ok', 'history_operand': True})
             other = 'um' if units[0] != 'um' else 'nm'
             events.append({'c': 0, 'fn': 'Spectrum.to', 'a': ['@S0', other], 'id': 'to1', 'inplace': ['@S0'], 't': {'repr': True}})
             E('s*', ['@S0', '@S1'], t={'expect': 'ok', 'dup': True})
@@ -605,7 +654,7 @@ class SpectrumArithScenario(Scenario):
     def _serial_compare(L, it, solo, hooks, ev, tainted):
         """True = agrees, None = comparison not defined (taints descendants), (what, why) = differs."""
         S = L.radiometry.Spectrum
-        if ev['id'] in hooks.touched or any(r in tainted for r in it.event_refs(ev)):
+        if ev['id'] in hooks.touched or ev['id'] in tainted or any(r in tainted for r in it.event_refs(ev)):
             return None
         x, y = it.store.get(ev['id']), solo.store.get(ev['id'])
         if any(isinstance(z, S) and np.size(z.wave) > 200000 for z in (x, y)):
@@ -672,7 +721,9 @@ class SpectrumArithScenario(Scenario):
                 solo = Interp(L, run['world'], self.fns, None)
                 solo.run(solo_events(run['events'], c))
                 it.probe('check:serial')
-                tainted = set()     # results whose comparison is not defined, and everything computed from them
+                # results whose comparison is not defined, and everything computed from them; a result its caller has
+                # written into is the caller's own data from then on, not the operation's answer
+                tainted = {e['target'].lstrip('@') for e in run['events'] if e.get('env') == 'perturb_attr'}
                 for ev in run['events']:
                     if ev.get('c') != c or not ev.get('id'):
                         continue
